@@ -1,1 +1,280 @@
-/-! Property theorems for C20 (none yet). -/
+import MirVerif.Lemmas.Mir2C
+import MirVerif.Lemmas.Mir2CSection
+import MirVerif.Lemmas.BridgeC20
+/-! # C20 — the C text emitted by mir2c computes what the MIR module computes.  Property theorems only.
+
+Objects: `Gen.C20.*` are the tables regenerated on every run from `mir2c/mir2c.c` (rows of `out_insn`,
+casts of the emitting helpers), `mir.h` (opcode enum) and `mir.c` (what `MIR_finish_func` rejects);
+`cSem`/`cBranch`/`cCasts`/`cNeg`/`cBT`/`builtinS`/`builtinU` give the C11+gcc meaning of the emitted
+statements (Model/Mir2C.lean, Model/Mir2COvf.lean); `docSem` & co. are the documented meaning of the
+instructions (Model/Sem.lean, shared with C02); `printSection`/`printModule` model the item loop and
+the data-section printer (Model/Mir2CSection.lean).
+
+FULL STATEMENTS THAT ARE FALSE ON THE CURRENT CODE (kept visible; see `Model/Mir2CKnown.knownDeviations`):
+
+* `∀ a short x y r, cSem wrapv (row of opName a short) x y = some r → agree r (docSem a short x y)`
+  — false for `MIR_UGE` (emits `>`): `uge_template_wrong`; proved for every other row (`template_meets_doc`).
+* `∀ items, printModule terminates` — false: the section loop advances from `item`, not `curr_item`:
+  `section_printer_diverges_today`; proved for the fixed loop (`section_printer_terminates`) and for today's
+  loop under `noAnonFollower` (`section_printer_terminates_partial`, `section_printer_today_iff`).
+* `every opcode MIR_finish_func accepts has a case` — false for LDMOV, SWITCH, UNSPEC: `coverage_fails_today`;
+  `coverage` is the statement outside that list.
+* `UBO/UBNO after ADDO/SUBO[S] test the unsigned overflow` — false (they test the signed flag):
+  `ubo_after_addo_wrong`; `ubo_after_addo_meets_doc` is the statement for the repaired code.
+* Not a defect of a row but a gap of the approach (#20): without `-fwrapv` the emitted C is *undefined*
+  where MIR wraps — exactly the rows of `wrap_gap_rows` and `neg_gap`. -/
+namespace MirVerif.Mir2C
+open MirVerif
+
+/-- **Integer templates.**  Every integer arithmetic/logic/shift/compare opcode has exactly one row
+in the regenerated table, and unless the row is a listed deviation, whenever the emitted statement
+`r = (T) a op (T) b;` has a defined value under C11/gcc (with or without `-fwrapv`) — for ALL
+register contents — the instruction is defined there too and the value has the documented bits. -/
+theorem template_meets_doc (a : AOp) (short : Bool) :
+    ∃ tm, (opName a short, tm) ∈ Gen.C20.intRows ∧
+      (∀ tm', (opName a short, tm') ∈ Gen.C20.intRows → tm' = tm) ∧
+      (deviates a short = false → ∀ wrapv x y r, cSem wrapv tm x y = some r →
+        ∃ r', docSem a short x y = some r' ∧ agree a short r r') := by
+  have hc := gen_int_complete
+  rw [List.all_eq_true] at hc
+  have h1 := hc a (AOp.mem_all a)
+  rw [List.all_eq_true] at h1
+  have h2 := h1 short (by cases short <;> simp)
+  have hm : (opName a short, expectedTmpl a short) ∈ Gen.C20.intRows := by simpa using h2
+  refine ⟨expectedTmpl a short, hm, ?_, ?_⟩
+  · intro tm' hk'
+    exact nodup_keys_unique _ _ _ _ gen_int_functional hk' hm
+  · intro hd wrapv x y r h
+    simp only [expectedTmpl, hd, Bool.false_eq_true, if_false] at h
+    exact canon_meets_doc wrapv a short x y r h
+
+/-- every row of the table is the row of some instruction (no stray or misnamed rows) -/
+theorem template_rows_named (name : String) (tm : Tmpl) (h : (name, tm) ∈ Gen.C20.intRows) :
+    ∃ a short, nameToOp name = some (a, short) ∧ tm = expectedTmpl a short := by
+  have he := gen_int_expected
+  rw [List.all_eq_true] at he
+  have := he (name, tm) h
+  simp only at this
+  cases hn : nameToOp name with
+  | none => rw [hn] at this; cases this
+  | some p =>
+    obtain ⟨a, s⟩ := p
+    rw [hn] at this
+    exact ⟨a, s, rfl, by simpa using this⟩
+
+/-- compiled with `-fwrapv` the emitted statement is undefined exactly where the instruction is -/
+theorem template_domain_wrapv (a : AOp) (short : Bool) (hd : deviates a short = false) (x y : W64) :
+    cSem true (expectedTmpl a short) x y = none ↔ docSem a short x y = none := by
+  simp only [expectedTmpl, hd, Bool.false_eq_true, if_false]
+  exact canon_domain a short x y
+
+/-- **Gap #20, exact list.**  Without `-fwrapv` the emitted statement is undefined C although the
+instruction is defined for some operands *exactly* for the rows ADD, ADDS, SUB, SUBS, MUL, MULS
+(signed wrap-around); for every other (non-deviating) row the option changes nothing. -/
+theorem wrap_gap_rows (a : AOp) (short : Bool) (hd : deviates a short = false) :
+    (∃ x y, cSem false (expectedTmpl a short) x y = none ∧ (docSem a short x y).isSome = true) ↔
+      (a = .add ∨ a = .sub ∨ a = .mul) := by
+  simp only [expectedTmpl, hd, Bool.false_eq_true, if_false]
+  constructor
+  · rintro ⟨x, y, hn, hs⟩
+    by_cases hg : (canonTmpl a short).wrapGap = true
+    · cases a <;> cases short <;> simp_all [canonTmpl, Tmpl.wrapGap, common, promote, CTy.bits, CTy.signed]
+    · rw [cSem_wrapv_irrel _ (by simpa using hg), canon_domain] at hn
+      rw [hn] at hs; cases hs
+  · rintro (rfl | rfl | rfl) <;> cases short
+    · exact ⟨0x4000000040000000, 0x4000000040000000, by decide +kernel, by decide +kernel⟩
+    · exact ⟨0x4000000040000000, 0x4000000040000000, by decide +kernel, by decide +kernel⟩
+    · exact ⟨0x8000000080000000, 0x4000000040000000, by decide +kernel, by decide +kernel⟩
+    · exact ⟨0x8000000080000000, 0x4000000040000000, by decide +kernel, by decide +kernel⟩
+    · exact ⟨0x4000000040000000, 0x4000000040000000, by decide +kernel, by decide +kernel⟩
+    · exact ⟨0x4000000040000000, 0x4000000040000000, by decide +kernel, by decide +kernel⟩
+
+/-- **#16 — `MIR_UGE` is emitted as `>`** (false instance of the full `template_meets_doc`): the row
+of the regenerated table yields 0 for `0 ≥u 0` where the documentation says 1. -/
+theorem uge_template_wrong (h : Deviation.ugeEmitsGt ∈ knownDeviations) :
+    ∃ tm, (opName .uge false, tm) ∈ Gen.C20.intRows ∧
+      ∃ x y r r', cSem true tm x y = some r ∧ docSem .uge false x y = some r' ∧ r ≠ r' := by
+  have hd : deviates .uge false = true := by simp [deviates, h]
+  have hm' : (opName .uge false, expectedTmpl .uge false) ∈ Gen.C20.intRows := by
+    have hc := gen_int_complete
+    rw [List.all_eq_true] at hc
+    have h1 := hc .uge (AOp.mem_all _)
+    rw [List.all_eq_true] at h1
+    simpa using h1 false (by simp)
+  refine ⟨expectedTmpl .uge false, hm', 0, 0, 0, 1, ?_, by decide +kernel, by decide⟩
+  simp only [expectedTmpl, hd, if_true]
+  decide +kernel
+
+/-- **Compare-and-branch templates**: exactly one row per opcode, and `if ((T) a op (T) b) goto l`
+jumps exactly when the documented comparison holds. -/
+theorem branch_template_meets_doc (a : AOp) (ha : a ∈ AOp.cmps) (short : Bool) :
+    ∃ tm, (brName a short, tm) ∈ Gen.C20.brRows ∧
+      (∀ tm', (brName a short, tm') ∈ Gen.C20.brRows → tm' = tm) ∧
+      ∀ x y, cBranch tm x y = docBranch a short x y := by
+  have hc := gen_br_complete
+  rw [List.all_eq_true] at hc
+  have h1 := hc a ha
+  rw [List.all_eq_true] at h1
+  have h2 := h1 short (by cases short <;> simp)
+  have hm : (brName a short, canonTmpl a short) ∈ Gen.C20.brRows := by simpa using h2
+  have hcmp : a.isCmp = true := by
+    simp only [AOp.cmps, List.mem_cons, List.not_mem_nil, or_false] at ha
+    rcases ha with rfl | rfl | rfl | rfl | rfl | rfl | rfl | rfl | rfl | rfl <;> rfl
+  refine ⟨canonTmpl a short, hm, ?_, canon_branch a hcmp short⟩
+  intro tm' hk'
+  exact nodup_keys_unique _ _ _ _ gen_br_functional hk' hm
+
+/-- **Extension templates** `r = (int64_t) (intK_t) a;` -/
+theorem ext_template_meets_doc (k : Nat) (hk : k = 8 ∨ k = 16 ∨ k = 32) (signed : Bool) :
+    ∃ cs, (extName k signed, cs) ∈ Gen.C20.castRows ∧
+      (∀ cs', (extName k signed, cs') ∈ Gen.C20.castRows → cs' = cs) ∧
+      ∀ x, cCasts cs x = docExt k signed x := by
+  have hm : (extName k signed, canonCasts k signed) ∈ Gen.C20.castRows := by
+    have hc := gen_cast_complete
+    rcases hk with rfl | rfl | rfl <;> cases signed <;> simp_all
+  refine ⟨_, hm, ?_, canon_casts k hk signed⟩
+  intro cs' hk'
+  exact nodup_keys_unique _ _ _ _ gen_cast_functional hk' hm
+
+/-- **Negation templates** `r = - (T) a;`: where defined (always with `-fwrapv`) the documented result -/
+theorem neg_template_meets_doc (short : Bool) :
+    ((if short then "NEGS" else "NEG"), (if short then CTy.i32 else CTy.i64)) ∈ Gen.C20.negRows ∧
+      (∀ x, cNeg true (if short then .i32 else .i64) x = some (docNeg short x)) ∧
+      ∀ wrapv x r, cNeg wrapv (if short then .i32 else .i64) x = some r → r = docNeg short x := by
+  refine ⟨?_, cNeg_true short, fun w x r h => cNeg_meets_doc w short x r h⟩
+  rw [gen_neg_rows]; cases short <;> simp
+
+/-- gap #20 for negation: `- (int64_t) INT64_MIN` / `- (int32_t) INT32_MIN` are undefined without `-fwrapv` -/
+theorem neg_gap :
+    cNeg false .i64 0x8000000000000000 = none ∧ cNeg false .i32 0x80000000 = none := by
+  constructor <;> decide +kernel
+
+/-- **BT/BF/BTS/BFS** (`if ([!](int64_t|int32_t) a) goto l;`, text pinned by `pinned_texts_unchanged`) -/
+theorem bt_template_meets_doc (neg short : Bool) (x : W64) :
+    cBT neg (if short then .i32 else .i64) x = docBT neg short x := cBT_meets_doc neg short x
+
+/-- **Overflow instructions**: the stored result and the value of `__overflow` that `BO`/`BNO` test
+after `ADDO/SUBO/MULO` (64-bit forms; `int64_t` builtin) are the documented result and signed flag -/
+theorem ovf_signed_meets_doc (x y : W64) :
+    builtinS .add x y = ((docAddO x y).1, (docAddO x y).2.1) ∧
+    builtinS .sub x y = ((docSubO x y).1, (docSubO x y).2.1) ∧
+    builtinS .mul x y = docMulO x y := ⟨rfl, rfl, rfl⟩
+
+/-- 32-bit forms operate on `(int32_t) a`, `(int32_t) b` and store through `(int32_t *)&r` (low half of `r`) -/
+theorem ovf_signed_short_meets_doc (x y : W64) :
+    builtinS .add (lo32 x) (lo32 y) = ((docAddO (lo32 x) (lo32 y)).1, (docAddO (lo32 x) (lo32 y)).2.1) ∧
+    builtinS .sub (lo32 x) (lo32 y) = ((docSubO (lo32 x) (lo32 y)).1, (docSubO (lo32 x) (lo32 y)).2.1) ∧
+    builtinS .mul (lo32 x) (lo32 y) = docMulO (lo32 x) (lo32 y) := ⟨rfl, rfl, rfl⟩
+
+/-- `UMULO[S]` (unsigned builtin) followed by `UBO`/`UBNO` -/
+theorem umulo_meets_doc (x y : W64) :
+    builtinU .mul x y = docUMulO x y ∧ builtinU .mul (lo32 x) (lo32 y) = docUMulO (lo32 x) (lo32 y) :=
+  ⟨builtinU_mul x y, builtinU_mul _ _⟩
+
+/-- **`UBO`/`UBNO` after `ADDO`/`SUBO[S]` test the signed flag** (false instance): `-1 + 1` carries out
+of 64 bits (unsigned overflow documented) but `__overflow` is 0. -/
+theorem ubo_after_addo_wrong (h : Deviation.uboTestsSignedFlag ∈ knownDeviations) :
+    ∃ x y : W64, uboFlag .add x y ≠ (docAddO x y).2.2 := by
+  have hc : unsignedFlagFromSigned = true := by simp [unsignedFlagFromSigned, h]
+  refine ⟨0xFFFFFFFFFFFFFFFF, 1, ?_⟩
+  simp only [uboFlag, hc, if_true]
+  decide +kernel
+
+/-- the same statement for the repaired code (a second, unsigned builtin feeds `UBO`) -/
+theorem ubo_after_addo_meets_doc (h : Deviation.uboTestsSignedFlag ∉ knownDeviations) {n : Nat}
+    (x y : BitVec n) :
+    uboFlag .add x y = (docAddO x y).2.2 ∧ uboFlag .sub x y = (docSubO x y).2.2 := by
+  have hc : unsignedFlagFromSigned = false := by simp [unsignedFlagFromSigned, h]
+  simp only [uboFlag, hc, Bool.false_eq_true, if_false]
+  exact ⟨builtinU_add_flag x y, builtinU_sub_flag x y⟩
+
+/-- **Coverage.**  Every opcode of `MIR_insn_code_t` that `MIR_finish_func` does not reject and that is
+not in the listed set has a `case` in `out_insn`. -/
+theorem coverage (c : Nat) (hc : c < Gen.C20.allOpcodes.length) (hr : c ∉ Gen.C20.rejectCodes)
+    (hm : Gen.C20.allOpcodes.getD c "?" ∉ expectedMissing) : c ∈ Gen.C20.caseCodes := by
+  by_cases hcase : c ∈ Gen.C20.caseCodes
+  · exact hcase
+  exfalso
+  apply hm
+  rw [← gen_uncovered]
+  unfold uncoveredOpcodes uncoveredCodes
+  apply List.mem_map.mpr
+  refine ⟨c, ?_, rfl⟩
+  simp [List.mem_filter, hc, hcase, hr]
+
+/-- the case labels are opcodes (by name) and none is repeated -/
+theorem coverage_codes_are_names :
+    Gen.C20.caseCodes.map (fun c => Gen.C20.allOpcodes.getD c "?") = coveredOpcodes ∧
+      Gen.C20.caseCodes.Nodup := ⟨gen_codes_are_names.1, gen_cases_wellformed.1⟩
+
+/-- **#18**: today the full coverage statement fails — `MIR_SWITCH` (accepted by `MIR_finish_func`) has no case -/
+theorem coverage_fails_today (h : Deviation.missingOpcodes ∈ knownDeviations) :
+    "SWITCH" ∈ uncoveredOpcodes ∧ "LDMOV" ∈ uncoveredOpcodes := by
+  rw [gen_uncovered]
+  simp [expectedMissing, h]
+
+/-- **Termination of the item loop / data-section printer** for the loop that advances from the
+current item (the code after `fixes/C20-section-loop.patch`): for every item list the printer ends
+within `length + 1` steps per pass. -/
+theorem section_printer_terminates (h : loopFixed = true) (items : List Item) :
+    (printModule loopFixed items (items.length + 1)).isSome = true := by
+  rw [h]; exact printModule_fixed_some items
+
+/-- **#17**: the loop of the current source never ends on a named data item followed by an anonymous one -/
+theorem section_printer_diverges_today (h : loopFixed = false) :
+    ∃ items i, ∀ fuel, printSection loopFixed items i fuel = none := by
+  rw [h]
+  refine ⟨[⟨true, .data⟩, ⟨false, .data⟩], 0, fun fuel => ?_⟩
+  exact printSection_today_none _ 0 ⟨true, .data⟩ ⟨false, .data⟩ rfl rfl (by decide) rfl rfl (by decide) fuel
+
+/-- partial: whichever variant exists, a section head that is not followed by an anonymous
+data/bss/ref-data item is printed in finitely many steps -/
+theorem section_printer_terminates_partial (items : List Item) (i : Nat)
+    (h : noAnonFollower items i = true) : ∃ fuel, (printSection loopFixed items i fuel).isSome = true := by
+  cases hf : loopFixed
+  · exact ⟨3, printSection_today_some items i h⟩
+  · exact ⟨items.length + 1, printSection_fixed_some items i⟩
+
+/-- today's loop ends on a (named, printable) section head **iff** no anonymous data item follows it -/
+theorem section_printer_today_iff (items : List Item) (i : Nat) (hd : Item)
+    (hhd : items[i]? = some hd) (hnamed : hd.named = true)
+    (hkd : hd.kind ≠ .other ∧ hd.kind ≠ .exprData) :
+    (∃ fuel, (printSection false items i fuel).isSome = true) ↔ noAnonFollower items i = true := by
+  constructor
+  · rintro ⟨fuel, hs⟩
+    by_cases hna : noAnonFollower items i = true
+    · exact hna
+    exfalso
+    unfold noAnonFollower at hna
+    cases hit : items[i + 1]? with
+    | none => simp [hit] at hna
+    | some it =>
+      simp only [hit, Bool.or_eq_true, beq_iff_eq, not_or, Bool.not_eq_true] at hna
+      obtain ⟨⟨hn, h1⟩, h2⟩ := hna
+      rw [printSection_today_none items i hd it hhd hnamed hkd hit hn ⟨h1, h2⟩ fuel] at hs
+      cases hs
+  · intro h; exact ⟨3, printSection_today_some items i h⟩
+
+/-- the variant modelled as "the code that exists" is the one in the source, and the reviewed texts
+(`out_*` helpers' emitted text, BT/BF, overflow insns, BO/BNO, the section loop) are unchanged -/
+theorem source_is_model :
+    Gen.C20.sectionAdvanceVar = expectedAdvance ∧ Gen.C20.helperText = Canon.C20.helperText ∧
+      Gen.C20.pinned = Canon.C20.pinned := ⟨gen_section_advance, gen_helper_text, gen_pinned⟩
+
+/-! ### non-vacuity: concrete, non-trivial instances of the hypotheses -/
+
+-- a defined, non-trivial evaluation of an emitted 32-bit template and its documented counterpart
+example : cSem false (canonTmpl .div true) 0xFFFFFFFF_80000000 0x1_00000002 = some 0xFFFFFFFF_C0000000 := by decide +kernel
+example : docSem .div true 0xFFFFFFFF_80000000 0x1_00000002 = some 0xFFFFFFFF_C0000000 := by decide +kernel
+-- a mixed-cast template (what a dropped cast would produce) is given a meaning too, and a different one
+example : cSem true ⟨.i64, .u32, .bin .rsh⟩ 0xFFFFFFFF_80000000 0x1F = some 0xFFFFFFFF_FFFFFFFF := by decide +kernel
+example : cSem true (canonTmpl .ursh true) 0xFFFFFFFF_80000000 0x1F = some 1 := by decide +kernel
+example : deviates .add true = false := by decide
+-- a three-item section on which the fixed printer visits all members in both passes
+example : printSection true [⟨true, .data⟩, ⟨false, .bss⟩, ⟨false, .refData⟩, ⟨true, .data⟩] 0 5
+    = some [[0, 1, 2], [0, 1, 2]] := by decide
+example : noAnonFollower [⟨true, .data⟩, ⟨true, .data⟩] 0 = true := by decide
+example : (printSection false [⟨true, .data⟩, ⟨true, .data⟩] 0 3) = some [[0], [0]] := by decide
+example : (5 : Nat) < Gen.C20.allOpcodes.length ∧ 5 ∉ Gen.C20.rejectCodes := by decide +kernel
+
+end MirVerif.Mir2C
